@@ -1,7 +1,7 @@
 import RsslVerif.Lemmas.GenSemLit
 /-! Expressions: the emitted expression simulates the typed expression (`Sim`), by induction. -/
 namespace RsslVerif.Lemmas.GenSem
-open RsslVerif.Gen.HlslGenTables RsslVerif.Model RsslVerif.Model.GenHlsl RsslVerif.Spec.Sem
+open RsslVerif.Gen.HlslGenTables RsslVerif.Gen.HlslIntrinsicTables RsslVerif.Model RsslVerif.Model.GenHlsl RsslVerif.Spec.Sem
 open RsslVerif.Model.Ir (Ty Var Const Dir)
 
 theorem litlike_cases {e : Ir.Expr} (h : Ir.litlike e = true) : ∃ v, e = .lit (.int32 v) := by
@@ -379,6 +379,55 @@ theorem evalSeq_cons2 (W : World) (e e2 : Ir.Expr) (r : Ir.Exprs) (σ : Store) :
         | some (_, σ1) => Ir.evalSeq W (.cons e2 r) σ1) := by
   rw [Ir.evalSeq] <;> rfl
 
+/-- the exporter's name for a modelled intrinsic is the HLSL name of that very built-in (table re-extracted each run) -/
+theorem builtins_table_ok :
+    ∀ p ∈ Ast.builtins, intrinsicForm p.2 = .invoke p.1 ∧ Ast.hlslBuiltin p.1 = some p.2 := by decide
+
+theorem builtin_of_form {i : Intrinsic} {name : String} (hm : Ast.modelledBuiltin i = true)
+    (hf : intrinsicForm i = .invoke name) : Ast.hlslBuiltin name = some i := by
+  simp only [Ast.modelledBuiltin, List.any_eq_true] at hm
+  obtain ⟨p, hp, hpi⟩ := hm
+  have hpi' : p.2 = i := by simpa using hpi
+  obtain ⟨h1, h2⟩ := builtins_table_ok p hp
+  rw [hpi'] at h1 h2
+  rw [hf] at h1
+  have : name = p.1 := by injection h1
+  rw [this]; exact h2
+
+theorem argsType_cons2 (sig : Sig) (env : Ast.Env) (a b : HlslAst.Expr) (r : HlslAst.Exprs) :
+    Ast.argsType sig env (.cons a (.cons b r)) =
+      (match Ast.typeOf sig env a with
+        | none => none
+        | some ta =>
+          match Ast.argsType sig env (.cons b r) with
+          | none => none
+          | some tr => Ast.common ta tr) := by
+  rw [Ast.argsType]; cases Ast.typeOf sig env a <;> rfl
+
+theorem genArgs_cons_ne_nil (cx : Ctx) (e : Ir.Expr) (r : Ir.Exprs) : genArgs cx (.cons e r) ≠ .ok .nil := by
+  simp only [genArgs]
+  cases genExpr cx e with
+  | error _ => simp
+  | ok a => cases genArgs cx r <;> simp
+
+/-- what the induction proves about the arguments of a built-in of operand type `T` -/
+def SimAll (W : World) (env : Ast.Env) (T : Ty) (es : Ir.Exprs) (as : HlslAst.Exprs) : Prop :=
+  (∀ σ, Ast.evalAllT W env T as σ = Ir.evalAll W es σ) ∧
+  (es ≠ .nil → Ast.argsType W.sig env as = some (if Ir.allLitlike es then .lit else T))
+
+theorem allLitlike_ty {sig : Sig} {vty : Var → Ty} {T : Ty} :
+    ∀ {es : Ir.Exprs}, es ≠ .nil → Ir.allTy sig vty T es = true → Ir.allLitlike es = true → T = .int
+  | .nil, h, _, _ => absurd rfl h
+  | .cons e r, _, hty, hl => by
+    simp only [Ir.allTy, Bool.and_eq_true] at hty
+    simp only [Ir.allLitlike, Bool.and_eq_true] at hl
+    cases hte : Ir.typeOf sig vty e with
+    | none => simp [hte] at hty
+    | some t =>
+      simp [hte] at hty
+      have := litlike_ty hte hl.1
+      rw [← hty.1]; exact this
+
 mutual
 theorem sim_expr {W : World} {env : Ast.Env} {cx : Ctx} (hag : Agree cx env) :
     ∀ (e : Ir.Expr) (a : HlslAst.Expr) (t : Ty),
@@ -471,6 +520,45 @@ theorem sim_expr {W : World} {env : Ast.Env} {cx : Ctx} (hag : Agree cx env) :
           | some r =>
             obtain ⟨vals, σ1⟩ := r
             cases W.phi f (List.map (fun x => x.fst) vals) σ1 <;> simp [astVal, Ir.litlike]
+  | .intr i T ret args, a, t, hg, ht, hl => by
+    simp only [Ir.litOK] at hl
+    cases hf : intrinsicForm i with
+    | unexpected => simp [genExpr, hf] at hg
+    | method n => simp [genExpr, hf] at hg
+    | addressMethod n1 n2 => simp [genExpr, hf] at hg
+    | invoke name =>
+      cases hga : genArgs cx args with
+      | error e => simp [genExpr, hf, hga] at hg
+      | ok as =>
+        simp [genExpr, hf, hga] at hg; subst hg
+        cases args with
+        | nil => simp [Ir.typeOf] at ht
+        | cons e0 r0 =>
+          simp only [Ir.typeOf] at ht
+          split at ht
+          · rename_i hcond
+            obtain ⟨hall, hret, hmod, hT1, hT2⟩ := hcond
+            simp at ht; subst ht
+            have hsa := sim_all hag T (.cons e0 r0) as hga hall hl
+            have hb := builtin_of_form hmod hf
+            have hnone := hag.builtin i name hf
+            have hat := hsa.2 (by simp)
+            have hprom : Ast.promoteArg (if Ir.allLitlike (.cons e0 r0) = true then Ty.lit else T) = T := by
+              by_cases hal : Ir.allLitlike (.cons e0 r0) = true
+              · have := allLitlike_ty (by simp) hall hal
+                subst this; simp [hal, Ast.promoteArg]
+              · simp only [hal, Bool.false_eq_true, if_false]
+                cases T <;> simp [Ast.promoteArg] at hT1 hT2 ⊢
+            constructor
+            · simp [Ast.typeOf, hnone, hb, hat, hprom, astTy, Ir.litlike, hret]
+            · intro σ
+              simp only [Ast.eval, hnone, hb, hat, hprom, hsa.1 σ, Ir.eval]
+              cases Ir.evalAll W (.cons e0 r0) σ with
+              | none => simp
+              | some p =>
+                obtain ⟨vals, σ1⟩ := p
+                cases W.P.intr i T vals <;> simp [astVal, Ir.litlike]
+          · simp at ht
   | .op o .nil, a, t, hg, ht, _ => by simp [Ir.typeOf] at ht
   | .op o (.cons x .nil), a, t, hg, ht, hl => by
     simp only [Ir.litOK, Bool.and_eq_true, Bool.not_eq_true'] at hl
@@ -588,6 +676,63 @@ theorem sim_args {W : World} {env : Ast.Env} {cx : Ctx} (hag : Agree cx env) :
               simp at hd
               obtain ⟨xv, hxv⟩ := Option.isSome_iff_exists.mp hd
               simp only [Ast.evalArgs, Ir.evalArgs, lval_gen hag hxv hge, hxv, h2 σ]
+theorem sim_all {W : World} {env : Ast.Env} {cx : Ctx} (hag : Agree cx env) (T : Ty) :
+    ∀ (es : Ir.Exprs) (as : HlslAst.Exprs),
+      genArgs cx es = .ok as → Ir.allTy W.sig cx.vty T es = true → Ir.litOKArgs es = true → SimAll W env T es as
+  | .nil, as, hg, _, _ => by
+    simp [genArgs] at hg; subst hg
+    exact ⟨fun σ => by simp [Ast.evalAllT, Ir.evalAll], fun h => absurd rfl h⟩
+  | .cons e r, as, hg, hty, hl => by
+    simp only [Ir.litOKArgs, Bool.and_eq_true] at hl
+    simp only [Ir.allTy, Bool.and_eq_true] at hty
+    cases hge : genExpr cx e with
+    | error err => simp [genArgs, hge] at hg
+    | ok a1 =>
+      cases hgr : genArgs cx r with
+      | error err => simp [genArgs, hge, hgr] at hg
+      | ok ar =>
+        simp [genArgs, hge, hgr] at hg; subst hg
+        cases hte : Ir.typeOf W.sig cx.vty e with
+        | none => simp [hte] at hty
+        | some te =>
+          simp [hte] at hty
+          obtain ⟨rfl, htyr⟩ := hty
+          have h1 := sim_expr hag e a1 te hge hte hl.1
+          have h2 := sim_all hag te r ar hgr htyr hl.2
+          constructor
+          · intro σ
+            simp only [Ast.evalAllT, Ir.evalAll, h1.1, h1.conv hte]
+            cases Ir.eval W e σ with
+            | none => rfl
+            | some p => obtain ⟨v, σ1⟩ := p; simp [h2.1 σ1]
+          · intro _
+            cases r with
+            | nil =>
+              simp [genArgs] at hgr; subst hgr
+              simp [Ast.argsType, h1.1, astTy, Ir.allLitlike]
+            | cons e2 r2 =>
+              have hr := h2.2 (by simp)
+              cases ar with
+              | nil => exact absurd hgr (genArgs_cons_ne_nil cx e2 r2)
+              | cons a2 ar2 =>
+                rw [argsType_cons2]
+                have hcons : Ir.allLitlike (.cons e (.cons e2 r2)) = (Ir.litlike e && Ir.allLitlike (.cons e2 r2)) := rfl
+                rw [hcons]
+                simp only [h1.1, hr]
+                by_cases hrl : Ir.allLitlike (.cons e2 r2) = true
+                · have hT : te = .int := allLitlike_ty (by simp) htyr hrl
+                  subst hT
+                  by_cases hel : Ir.litlike e = true
+                  · simp [astTy, hel, hrl, Ast.common]
+                  · have hel' : Ir.litlike e = false := by simpa using hel
+                    simp [astTy, hel', hrl, Ast.common]
+                · have hrl' : Ir.allLitlike (.cons e2 r2) = false := by simpa using hrl
+                  by_cases hel : Ir.litlike e = true
+                  · have hT := litlike_ty hte hel
+                    subst hT
+                    simp [astTy, hel, hrl', Ast.common]
+                  · have hel' : Ir.litlike e = false := by simpa using hel
+                    simp [astTy, hel', hrl', Ast.common]
 end
 
 end RsslVerif.Lemmas.GenSem
